@@ -326,6 +326,13 @@ Definition run (fn : Z) (a : sx) : sx :=
       match LoopErr.turn w rds with
       | LoopErr.TContinue => L [I 0] | LoopErr.TInterrupted => L [I 1] | LoopErr.TRaised e => L [I 2; I e]
       end
+  | 83 => (* FN loop_turn_n : as loop_turn, with the number of packets dispatched in the turn: (outcome count) *)
+      let w := match sx_list (sx_nth a 0) with [] => None | f :: _ => Some {| LoopErr.wf_exn := sx_z (sx_nth f 0); LoopErr.wf_is_ioerror := sx_bool (sx_nth f 1) |} end in
+      let rds := map (fun r => {| LoopErr.rd_disconnect := sx_bool (sx_nth r 0);
+                                  LoopErr.rd_raises := match sx_list (sx_nth r 1) with [] => None | e :: _ => Some (sx_z e) end;
+                                  LoopErr.rd_ends_loop := sx_bool (sx_nth r 2) |}) (sx_list (sx_nth a 1)) in
+      let (o, n) := LoopErr.turn_n w rds in
+      L [match o with LoopErr.TContinue => L [I 0] | LoopErr.TInterrupted => L [I 1] | LoopErr.TRaised e => L [I 2; I e] end; I (Z.of_nat n)]
   | 81 => (* FN outdated_ver : (msg) *)
       of_opt of_zs (outdated_ver (sx_zs (sx_nth a 0)))
   | 90 => (* FN negotiate : (supported names indices allowed_opt initial_opt behaviour) -> () on ValueError | (allowed default conns outcome) *)
